@@ -245,6 +245,8 @@ type vsFailNI struct {
 	eni.NetworkInterface
 	mu       sync.Mutex
 	failOnce map[string]bool // pod id -> fail the next Release for it
+	// failAlways: pod id -> every Release for it fails (a cleanup that can never proceed)
+	failAlways map[string]bool
 }
 
 func (f *vsFailNI) Release(ctx context.Context, cni *daemon.CNI, request eni.NetworkResource) (bool, error) {
@@ -285,6 +287,9 @@ func (f *vsFailNIShared) Release(ctx context.Context, cni *daemon.CNI, request e
 	fail := f.shared.failOnce[cni.PodID]
 	if fail {
 		delete(f.shared.failOnce, cni.PodID)
+	}
+	if f.shared.failAlways[cni.PodID] {
+		fail = true
 	}
 	f.shared.mu.Unlock()
 	if fail {
@@ -391,7 +396,7 @@ func vsStart(cfg vsPoolCfg, cloud *cloudsim.Cloud, k *vsK8s, dir, dbPath string)
 	}
 	if cfg.FailRelease && len(nis) > 0 {
 		// all interfaces sit behind one wrapper-per-interface sharing the fail list
-		w.failNI = &vsFailNI{failOnce: map[string]bool{}}
+		w.failNI = &vsFailNI{failOnce: map[string]bool{}, failAlways: map[string]bool{}}
 		for i := range nis {
 			nis[i] = &vsFailNIShared{NetworkInterface: nis[i], shared: w.failNI}
 		}
